@@ -16,7 +16,7 @@ EXTENDS StorageKV, Json, IOUtils, SequencesExt, FiniteSetsExt
 Trace   == ndJsonDeserialize(IOEnv.VERIF_TRACE)
 OutFile == IOEnv.VERIF_OUT
 
-CommonDev == {"FlagsNotPersisted", "StoreRefused"}         \* defects shared by all four backends (C20)
+CommonDev == {}      \* defects shared by all four backends, judged by C20 (were "FlagsNotPersisted", "StoreRefused" until 42c0491 / 39b5ba3)
 BackendDev == {"NoDisconnectRewrite", "NoPacketID"}        \* candidate differences between backends
 DevOfKind(kind) == CASE kind = "clients" -> "NoDisconnectRewrite" [] kind = "inflight" -> "NoPacketID" [] OTHER -> "-"
 KindNames == <<"clients", "subs", "retained", "inflight", "sys">>
